@@ -9,10 +9,10 @@ def gen_degenerate(rng, target):
     n = rng.choice([1, 2, 3, 5, 12, 12, 40, 146, 200])
     cols, quantitative, qualitative, ordinal, values_orders = {}, [], [], [], {}
     shapes = rng.sample(["constant", "all_missing", "equally_rare", "near_unique", "spike", "two_values", "normal_q", "normal_c",
-                         "ord_many", "cat_rare", "heavy_ties"], rng.randint(1, 3))
+                         "ord_many", "cat_rare", "heavy_ties", "zero_inflated"], rng.randint(1, 3))
     for i, sh in enumerate(shapes):
         nan_rate = rng.choice([0, 0, 0.1, 0.5])
-        if sh in ("constant", "all_missing", "equally_rare", "near_unique", "spike", "two_values", "normal_q", "heavy_ties"):
+        if sh in ("constant", "all_missing", "equally_rare", "near_unique", "spike", "two_values", "normal_q", "heavy_ties", "zero_inflated"):
             name = f"q{i}"
             if sh == "constant":
                 v = [7.0] * n
@@ -27,6 +27,9 @@ def gen_degenerate(rng, target):
                 v = [3.0 if rng.random() < 0.7 else float(rng.randint(0, 30)) for _ in range(n)]
             elif sh == "two_values":
                 v = [float(rng.choice([0, 1])) for _ in range(n)]
+            elif sh == "zero_inflated":
+                # a few rare negative values, 0 over-represented (a falsy quantile leading a merged group), a positive tail
+                v = [float(rng.choice([-2, -1])) if rng.random() < 0.03 else (0.0 if rng.random() < 0.6 else float(rng.randint(1, 9))) for _ in range(n)]
             elif sh == "heavy_ties":
                 k = rng.choice([5, 12, 19])
                 v = [float(int(k * rng.random() ** 2)) for _ in range(n)]
